@@ -141,6 +141,23 @@ PROPS["C16"] = {
 }
 
 
+STEPQ = {"disksz": 10000, "dirslots": 3, "namecmp": 2, "bbytes": 2, "bblocks": 1, "inums": 2, "offsets": 1, "zeroalloc": 0, "sizeblocks": 1,
+         "namelens": 2, "pendingshrink": 0, "plainattrs": 1, "timeattrs": 0}
+STEPT = {"disksz": 10000, "dirslots": 4, "namecmp": 2, "bbytes": 4, "bblocks": 2, "inums": 5, "offsets": 2, "zeroalloc": 0, "sizeblocks": 2,
+         "namelens": 3, "pendingshrink": 1, "plainattrs": 0, "timeattrs": 1}
+
+PROPS["C08"] = {
+    "level": "model_checking",
+    "explanation": "every handle-taking procedure and handle position executed symbolically with a dead handle (free inode, or live inode of another generation) from an arbitrary valid state: the reply must be NFS3ERR_STALE with no journal append; generation step (free<->live bumps the generation, otherwise unchanged) and reply handles = (inum, generation) asserted in the mutating steps",
+    "assumptions": JOURNAL + ["pre-state satisfies Inv (DESIGN.md §4)", "representative inode/block numbers (bound R_addr)"],
+    "outside": ["2^64 wrap-around of the generation counter", "histories: covered by induction over the generation step"],
+    "harnesses": [
+        H("nfs.VerifC08Stale", q=STEPQ, t=STEPT, lmax=3, budget_s=300, budget_s_t=1500),
+        H("nfs.VerifC08Handles", covers=("end", "lookup-ok", "create-ok", "crossed", "readdirplus-3"), q=dict(STEPQ, inums=1), t=STEPT, lmax=3, budget_s=300, budget_s_t=1500),
+    ],
+}
+
+
 def is_monitor_label(label):
     return label.startswith("mon:")
 
